@@ -67,9 +67,24 @@ inline std::vector<std::pair<int, double>> outcome_secondaries(ScriptedShared co
         }
         case Outcome::absorb_subcut: return {{1, s.subcut_energy}, {0, avail / 2}};
         case Outcome::annihilate: return {{0, avail / 2}, {0, avail / 2}};
+        case Outcome::absorb_subcut_positron: return {{2, s.subcut_energy}, {0, avail / 2}};
         default: return {};
     }
 }
+
+//! Deterministic outcome choice: a fixed function of who asks (history independent)
+struct HashedOutcomeChooser : LoopChooser
+{
+    int choose(int n, InteractionQuery const& q) override
+    {
+        uint64_t h = hash_pod(q.event);
+        h = hash_mix(h, q.track);
+        h = hash_mix(h, q.step);
+        h = hash_mix(h, uint64_t(q.particle));
+        h = hash_mix(h, hash_pod(q.energy));
+        return int(h % uint64_t(n));
+    }
+};
 
 struct PrimaryCase
 {
@@ -178,7 +193,8 @@ struct EventRun
     std::vector<StepperResult> results;
 };
 
-inline EventRun run_event(LoopProblem& P, PrimaryCase const& pc, Choices& c, unsigned horizon = 10000)
+inline EventRun run_event(LoopProblem& P, PrimaryCase const& pc, Choices& c, unsigned horizon = 10000,
+                          LoopChooser* chooser_override = nullptr)
 {
     EventRun out;
     if (P.recorder)
@@ -192,7 +208,7 @@ inline EventRun run_event(LoopProblem& P, PrimaryCase const& pc, Choices& c, uns
     }
     ExploreChooser ch;
     ch.c = &c;
-    g_loop_chooser = &ch;
+    g_loop_chooser = chooser_override ? chooser_override : &ch;
     try
     {
         auto st = P.make_stepper();
